@@ -736,3 +736,9 @@ func (e *Engine) errorf(c *CallCtx, format, argSlice *Term) *Term {
 	e.ghostSet(c.st, "errwrap", IfaceS, l, wrapped)
 	return MkIface(e.ghostTag("fmtError"), Ctor(AnyS, "a_box", id))
 }
+
+func init() {
+	extraModels = append(extraModels, func(e *Engine) {
+		e.models["strings.Index"] = func(c *CallCtx) *Term { return StrIndexOf(c.args[0], c.args[1], IntT(0)) }
+	})
+}
